@@ -261,3 +261,11 @@ def replay_witnesses(c, oracle):
         c.coverage.setdefault('known_finding_witnesses', {})[e['id']] = {'still_fails': bool(fails), 'first': fails[:1]}
         if fails:
             c.known_finding(e, fails[0])
+
+
+def size_unstable(cs, h, lines):
+    """True iff the hypothesis SizeStable is false on this history (finding F8), as evaluated by the
+    Lean model: some record's size computed at call entry differs from its size at the content
+    offset or at the offset where it is written"""
+    out = hrt.run_model(cs.ir, cs.dname, [h], hyps=True)[0]
+    return out[-1] == 'hyp SizeStable=0'
